@@ -56,14 +56,17 @@ macro_rules! impl_derivatives {
                 } else if (n - F::one() - F::one()).abs() < F::epsilon() {
                     self * self
                 } else {
+                    // Start from the lowest power this order needs, x^(n - order), and multiply
+                    // upwards, so that x = 0 stays finite whenever n exceeds the order.
                     let n1 = n - F::one();
-                    let n2 = n1 - F::one();
-                    let n3 = n2 - F::one();
-                    let pow3 = self.re.powf(n3);
-                    let f0 = pow3.clone() * &self.re * &self.re * &self.re;
-                    let f1 = pow3.clone() * &self.re * &self.re * n;
-                    second!($deriv, let f2 = pow3.clone() * &self.re * n * n1;);
-                    third!($deriv, let f3 = pow3 * n * n1 * n2;);
+                    second!($deriv, let n2 = n1 - F::one(););
+                    let pow = self.re.powf(order_select!($deriv, n1, n2, n2 - F::one()));
+                    third!($deriv, let f3 = pow.clone() * n * n1 * n2;);
+                    third!($deriv, let pow = pow * &self.re;);
+                    second!($deriv, let f2 = pow.clone() * n * n1;);
+                    second!($deriv, let pow = pow * &self.re;);
+                    let f1 = pow.clone() * n;
+                    let f0 = pow * &self.re;
                     chain_rule!($deriv, Self::chain_rule(self, f0, f1, f2, f3))
                 }
             }
@@ -351,6 +354,19 @@ macro_rules! third {
     (second, $($code:tt)*) => {};
     (third, $($code:tt)*) => {
         $($code)*
+    };
+}
+
+#[macro_export]
+macro_rules! order_select {
+    (first, $first:expr, $second:expr, $third:expr) => {
+        $first
+    };
+    (second, $first:expr, $second:expr, $third:expr) => {
+        $second
+    };
+    (third, $first:expr, $second:expr, $third:expr) => {
+        $third
     };
 }
 
